@@ -10,6 +10,9 @@ L4EXTRA = 'abcxyz -+=,!#$%&()@^`{}~'
 
 UNI_BMP = 'éüΩЖ中文あא€'
 UNI_ASTRAL = '\U0001f600\U00010348'
+# sequences that are not in Unicode normal form C (a base letter plus a combining mark that has a precomposed form, conjoining
+# Hangul jamo, a singleton): a name is the code units that were given, not a normal form of them
+UNI_NOT_NFC = ['e\u0301', 'A\u030a', '\u1112\u1161\u11ab', '\u212b', 'o\u0308', 'n\u0303']
 
 
 def b36(n, width=3):
@@ -103,6 +106,8 @@ def joliet_name(serial, size, lead, salt=0):
     s = (p + b36(serial).lower() + _fill(alpha, n, salt))[:n]
     if salt % 4 == 3:
         ins = UNI_BMP[salt % len(UNI_BMP)] if salt % 8 != 7 else UNI_ASTRAL[salt % 2]
+        if salt % 16 == 11:
+            ins = UNI_NOT_NFC[(salt // 16) % len(UNI_NOT_NFC)]
         s = s[:5] + ins + s[5:]
     elif salt % 4 == 2 and n >= 30:
         # mostly non-ASCII: many UTF-8 bytes per UTF-16 unit
